@@ -80,6 +80,7 @@ func (s *syncStore[H]) Append(ctx context.Context, headers ...H) error {
 		s.head.Store(&head)
 	}
 
+	simYield("sync:syncStore.Append:before-store")
 	if err := s.Store.Append(ctx, headers...); err != nil {
 		return err
 	}
